@@ -182,3 +182,40 @@ pub fn reused_call(spec_a: SpecId, spec_b: SpecId, to: Address, code: Option<Vec
     let mut fresh = Evm::builder().with_db(mk_db()).with_spec_id(spec_b).modify_tx_env(set_tx).build();
     (reused, norm(fresh.transact()))
 }
+
+
+/// A plain call to `addr` on an Evm whose precompile set was EXTENDED by the embedder through a handler register
+/// (the documented custom-precompile flow: wrap `pre_execution.load_precompiles`, `extend` with one extra address):
+/// every built-in address must still behave exactly as on a plain Evm.
+pub fn call_tx_extended(addr: Address, spec: SpecId) -> String {
+    use revm::{ContextPrecompile, ContextStatefulPrecompile, InnerEvmContext};
+    use revm::precompile::{PrecompileOutput, PrecompileResult};
+    struct Custom;
+    impl ContextStatefulPrecompile<InMemoryDB> for Custom {
+        fn call(&self, _input: &Bytes, _gas_limit: u64, _context: &mut InnerEvmContext<InMemoryDB>) -> PrecompileResult {
+            Ok(PrecompileOutput::new(10, Bytes::new()))
+        }
+    }
+    let mut db = InMemoryDB::default();
+    let caller = Address::with_last_byte(0x99);
+    db.insert_account_info(caller, AccountInfo { balance: U256::from(1u64 << 60), ..Default::default() });
+    let mut evm = Evm::builder()
+        .with_db(db)
+        .with_spec_id(spec)
+        .modify_tx_env(|tx| {
+            tx.caller = caller;
+            tx.transact_to = TxKind::Call(addr);
+            tx.gas_limit = 5_000_000;
+            tx.data = Bytes::from(pc_input());
+        })
+        .append_handler_register(|handler| {
+            let precompiles = handler.pre_execution.load_precompiles();
+            handler.pre_execution.load_precompiles = std::sync::Arc::new(move || {
+                let mut precompiles = precompiles.clone();
+                precompiles.extend([(Address::with_last_byte(0xC7), ContextPrecompile::ContextStateful(std::sync::Arc::new(Custom)))]);
+                precompiles
+            });
+        })
+        .build();
+    norm(evm.transact())
+}
